@@ -622,6 +622,21 @@ class HarnessRT(object):
         else:
             raise HarnessFault("running stack out of sync at yield of %r" % (fr.path,))
 
+    def snapshot(self, obj):
+        """Identity skeleton of what the program is about to yield."""
+        t = type(obj)
+        if t in (list, tuple):
+            return (t, [self.snapshot(x) for x in obj])
+        if t is dict:
+            return (t, [(k, self.snapshot(v)) for k, v in obj.items()])
+        return id(obj)
+
+    def check_unchanged(self, fr, k, obj, snap):
+        # the containers a program yields are the program's own objects: it may use them again
+        self.n_unchanged_checks = getattr(self, "n_unchanged_checks", 0) + 1
+        if self.snapshot(obj) != snap:
+            self.violation("yielded-container-was-modified", {"task": fr.path, "yield": k, "now": repr(obj)[:200]})
+
     def ev_resume(self, fr, k, leaves, got):
         fr.steps += 1
         fr.rtdata = None
